@@ -65,13 +65,18 @@ let op_of_tok t : fl op =
   | ["W"] -> Write
   | ["S"; ws; wo] -> StreamInto (fls_of_tok ws, fls_of_tok wo)
   | _ -> failwith ("bad op " ^ t)
-(* a value: `v=<doubles>` | `s=<axis>=<indices>` (a view of this record) | `o=<ints>=<scale>=<offset>` (a view of another record) *)
+(* a value: `v=<doubles>` | `s=<axis>=<indices>` (a view of this record) | `o=<ints>=<scale>=<offset>` (a view of another record)
+   | `p=...` (an augmented assignment: the view of this record combined with operands) *)
 let natlist_of_tok s = if s = "-" then [] else List.map (fun x -> nat_of_int (int_of_string x)) (String.split_on_char ',' s)
 let vsrc_of_tok t : fl vsrc =
   match String.split_on_char '=' t with
   | ["v"; a] -> VVals (fls_of_tok a)
   | ["s"; ax; idx] -> VSelf (nat_of_int (int_of_string ax), natlist_of_tok idx)
   | ["o"; xs; s; o] -> VOther (zlist_of_tok xs, fl_of_tok s, fl_of_tok o)
+  (* `p=<axis>=<indices>=<add|sub|mul|div>=<operands>`: view[indices] op= operands (one per index) *)
+  | ["p"; ax; idx; b; ds] ->
+    let b = (match b with "add" -> BAdd | "sub" -> BSub | "mul" -> BMul | "div" -> BDiv | _ -> failwith ("bad operator " ^ b)) in
+    VSelfOp (nat_of_int (int_of_string ax), natlist_of_tok idx, f_view_op b, fls_of_tok ds)
   | _ -> failwith ("bad value " ^ t)
 let sop_of_tok t : fl sop =
   match String.split_on_char ':' t with
